@@ -59,7 +59,7 @@ def v1_store_after_success(ctx):
             continue
         e, s = stored
         txt = render(e)
-        if re.fullmatch(r'branch\(Interpreter::execute_ast\(config, session, expression\)\) as Continue\.0', txt):
+        if re.fullmatch(r'branch\(Interpreter::execute_ast\(config, session, expression\)\) as Continue\.0|Interpreter::execute_ast\(config, session, expression\) as Ok\.0', txt):
             ctx.ok('V2', 'stored value = result of execute_ast(expression)', 'use-def', site=s['loc'])
         elif txt == 'expression' or 'execute_ast' not in txt:
             ctx.finding('V2', 'executer_assignment/stores-expression', 'the binding stores %s, not the evaluated value: later changes of other variables would show through' % txt[:100], site=s['loc'])
